@@ -27,6 +27,14 @@ func randName(g *pk.Gen, max int) []byte {
 	return b
 }
 
+func randFixed(g *pk.Gen, n int) []byte {
+	b := make([]byte, n)
+	for i := range b {
+		b[i] = byte('A' + g.Rng.Intn(26))
+	}
+	return b
+}
+
 func randPassword(g *pk.Gen, max int) []byte {
 	switch g.Rng.Intn(6) {
 	case 0:
@@ -162,6 +170,15 @@ func pemVariants(g *pk.Gen, bits []int) (out []enc, tags []string) {
 	add(enc{bits[0], []byte("-----BEGIN RSA PUBLIC KEY-----\n-----END RSA PUBLIC KEY-----\n"), g.Rng.Bytes(32)}, "key-empty-der")
 	for _, n := range []int{0, 1, 16, 64, 86, 87, 100} {
 		add(enc{bits[0], good, g.Rng.Bytes(n)}, fmt.Sprintf("nonce-%d", n))
+	}
+	// around the point where nonce + 32-byte session key exactly fills the key
+	for _, b := range bits {
+		c := b/8 - 42
+		for _, n := range []int{c - 33, c - 32, c - 31} {
+			if n >= 1 {
+				add(enc{b, PemOf(Key(b), "RSA PUBLIC KEY"), g.Rng.Bytes(n)}, fmt.Sprintf("nonce-boundary;%d;%d", b, n))
+			}
+		}
 	}
 	return
 }
@@ -366,7 +383,24 @@ func Generate(g *pk.Gen, prop string) {
 		pv, ptags := pemVariants(g, append(bits, 512))
 		for i, e := range pv {
 			e := e
-			job(mk(validEnc(e), randCfg(g, msgEncrypt4, 60), &e, "enc;"+ptags[i]), g.Rng.Intn(3))
+			cfg := randCfg(g, msgEncrypt4, 60)
+			if strings.HasPrefix(ptags[i], "nonce-boundary") {
+				cfg.Password, cfg.Remote = []byte("pw"), nil // the session key decides
+			}
+			job(mk(validEnc(e), cfg, &e, "enc;"+ptags[i]), g.Rng.Intn(3))
+		}
+		// passwords that exactly fill the key (with the usual 32-byte nonce), one byte less, one byte more
+		for _, b := range bits {
+			e := enc{b, PemOf(Key(b), "RSA PUBLIC KEY"), g.Rng.Bytes(32)}
+			for _, d := range []int{-1, 0, 1} {
+				cfg := randCfg(g, msgEncrypt4, 20)
+				cfg.Remote = nil
+				cfg.Password = randFixed(g, b/8-42-32+d)
+				job(mk(validEnc(e), cfg, &e, fmt.Sprintf("enc;password-boundary;%d;%d", b, d)), g.Rng.Intn(3))
+				cfg2 := randCfg(g, msgEncrypt4, 20)
+				cfg2.Remote = [][2][]byte{{randName(g, 8), randFixed(g, b/8-42-32+d)}}
+				job(mk(validEnc(e), cfg2, &e, fmt.Sprintf("enc;remote-password-boundary;%d;%d", b, d)), g.Rng.Intn(3))
+			}
 		}
 		nmulti := 60
 		if g.Thorough {
